@@ -11,6 +11,7 @@ import (
 
 	"github.com/protobom/protobom/pkg/formats"
 	"github.com/protobom/protobom/pkg/native"
+	"github.com/protobom/protobom/pkg/native/serializers"
 	"github.com/protobom/protobom/pkg/reader"
 	"github.com/protobom/protobom/pkg/sbom"
 	"github.com/protobom/protobom/pkg/storage"
@@ -55,7 +56,38 @@ func anyStr(v any) string {
 	if v == nil {
 		return "<nil>"
 	}
+	if p, ok := v.(*serializers.SPDX3Options); ok && p != nil {
+		return fmt.Sprintf("&%v", *p)
+	}
 	return fmt.Sprintf("%v", v)
+}
+
+// format options for the BUILT-IN drivers, under the keys reader and writer look them up by, with values of
+// the types a driver might understand (what a driver makes of them is its business; the instance's
+// configuration stays what the constructor made it)
+var c18RealWKeys = []string{"*serializers.SPDX23", "*serializers.CDX"}
+var c18RealRKeys = []string{"*unserializers.SPDX23", "*unserializers.CDX"}
+
+func c18RealValue(i int) any {
+	switch i % 6 {
+	case 0:
+		return serializers.SPDX3Options{Indent: 2 + i%5}
+	case 1:
+		return &serializers.SPDX3Options{Indent: 2 + i%5}
+	case 2, 3:
+		keys, dict := gen.DriverDict()
+		m := map[string]string{"indent": fmt.Sprint(2 + i%5)}
+		for j, k := range keys {
+			m[k] = []string{"vendor-a", "1", "true", "3"}[(i+j)%4]
+		}
+		if len(dict) > 0 {
+			m[dict[i%len(dict)]] = "1"
+		}
+		return m
+	case 4:
+		return native.RenderOptions{Indent: 3 + i%4}
+	}
+	return fmt.Sprintf("text-%d", i)
 }
 
 func storageSnap(st storage.StoreRetriever) string {
@@ -175,8 +207,8 @@ func genC18(verifSeed int64, tier string, idx int) *core.Scenario {
 		b = repoFile("bom-1.4.json")
 	}
 	sp.Streams = append(sp.Streams, b64(b))
-	wopts := []string{"format", "render", "serialize", "fmtopts", "storeopts", "drvopts", "render-nil", "serialize-nil", "storeopts-nil", "store-nil"}
-	ropts := []string{"fmtopts", "unserialize", "retrieve", "drvopts", "unserialize-nil", "retrieve-nil", "store-nil", "sniffer-nil"}
+	wopts := []string{"format", "render", "serialize", "fmtopts", "storeopts", "drvopts", "render-nil", "serialize-nil", "storeopts-nil", "store-nil", "realdrv"}
+	ropts := []string{"fmtopts", "unserialize", "retrieve", "drvopts", "unserialize-nil", "retrieve-nil", "store-nil", "sniffer-nil", "realdrv"}
 	call := 0
 	for t := 0; t < ntasks; t++ {
 		n := 3 + r.Intn(10)
@@ -420,6 +452,8 @@ func execC18(sc *core.Scenario) *core.Result {
 		}
 	}
 	env.keys = append(env.keys, "never-set", c18SerKey, c18UnserKey)
+	env.keys = append(env.keys, c18RealWKeys...)
+	env.keys = append(env.keys, c18RealRKeys...)
 	// reporting drivers under a private format (registered before any task exists)
 	writer.RegisterSerializer(formats.Format(fmtPrivA), &c18Serializer{})
 	reader.RegisterUnserializer(formats.Format(fmtPrivA), &c18Unserializer{})
@@ -506,6 +540,10 @@ func (env *c18env) mkOp(rec *opRec) func() string {
 					opts = append(opts, writer.WithStoreOptions(nil))
 				case "store-nil":
 					opts = append(opts, writer.WithStoreRetriever(nil))
+				case "realdrv":
+					k, v := c18RealWKeys[op.I%2], c18RealValue(op.I)
+					opts = append(opts, writer.WithFormatOptions(k, v))
+					model["fmtopt:"+k] = anyStr(v)
 				case "drvopts":
 					opts = append(opts, writer.WithFormatOptions(c18SerKey, fmt.Sprintf("inst-%d", op.I)))
 					model["fmtopt:"+c18SerKey] = fmt.Sprintf("inst-%d", op.I)
@@ -550,6 +588,10 @@ func (env *c18env) mkOp(rec *opRec) func() string {
 					opts = append(opts, reader.WithStoreRetriever(nil))
 				case "sniffer-nil":
 					opts = append(opts, reader.WithSniffer(nil))
+				case "realdrv":
+					k, v := c18RealRKeys[op.I%2], c18RealValue(op.I)
+					opts = append(opts, reader.WithFormatOptions(k, v))
+					model["fmtopt:"+k] = anyStr(v)
 				case "drvopts":
 					opts = append(opts, reader.WithFormatOptions(c18UnserKey, fmt.Sprintf("inst-%d", op.I)))
 					model["fmtopt:"+c18UnserKey] = fmt.Sprintf("inst-%d", op.I)
